@@ -51,6 +51,11 @@ def _plan(draw, max_rows):
             if c["kind"] == "f":
                 c["vals"] = [1.0 if v != v else v for v in c["vals"]]
         name = "unique"
+    elif special == 3:
+        # key values whose hashes coincide (-1 / -2, 0 / 2**61 - 1, 1969-12-31 / 1969-12-30, inf / 314159.0 ...)
+        fp = draw(gen.frame_plan(kinds=["i", "f", "d", "td", "t", "i8", "oi"], max_rows=max_rows, max_cols=3, min_cols=1,
+                                 prefix="c", mode="twins"))
+        name = draw(st.sampled_from(["unique", "unique", "unique", "drop_na", "filter_kv"]))
     elif special in (1, 2):
         # several key columns that can hold missing values, tight pools: rows that differ only in *where* the
         # missing value sits (and in 0 / epoch vs missing) are the norm here
@@ -59,6 +64,9 @@ def _plan(draw, max_rows):
         name = draw(st.sampled_from(["unique", "unique", "drop_na"]))
     else:
         fp = draw(gen.frame_plan(kinds=KINDS, max_rows=max_rows, max_cols=4, prefix="c"))
+        if draw(st.integers(0, 24)) == 0:
+            # a long frame (65 .. 5003 rows): beyond any size threshold a fast path might use
+            fp = draw(gen.big_frame_plan(kinds=[k for k in KINDS if k != "oi"], max_cols=3, prefix="c"))
         name = draw(st.sampled_from(["filter", "filter_out", "filter_kv", "filter_out_kv", "slice", "slice_off",
                                      "head", "tail", "drop_na", "sample", "unique", "unique"]))
     n, cols = fp["n"], fp["cols"]
@@ -100,7 +108,13 @@ def _plan(draw, max_rows):
             op["rows"] = draw(st.lists(st.integers(0, n - 1), max_size=n + 2))
         ncol = len(cols) + 1
         op["cols"] = draw(st.one_of(st.none(), st.lists(st.integers(0, ncol - 1), unique=True, max_size=ncol).map(sorted)))
-        op["rows_form"] = draw(st.sampled_from(["list", "ndarray"]))
+        op["rows_form"] = draw(st.sampled_from(["list", "ndarray", "tuple", "vector"]))
+        if n >= 2 and draw(st.integers(0, 4)) == 0:
+            # positions given as a range object, ascending or descending, with and without reaching row 0 / the last row
+            a0, a1 = draw(st.integers(0, n - 1)), draw(st.integers(0, n - 1))
+            step = draw(st.sampled_from([1, 1, 2, 3]))
+            r = range(a0, a1 + 1, step) if a0 <= a1 else range(a0, a1 - 1, -step)
+            op["rows"], op["rows_form"], op["range"] = list(r), "range", [r.start, r.stop, r.step]
     elif name in ("head", "tail", "sample"):
         op["n"] = draw(st.sampled_from([None, 0, 1, max(n - 1, 0), n, n + 3]))
         if name == "sample":
@@ -238,6 +252,15 @@ def check(plan, ctx):
         rows = op["rows"]
         if rows is not None and op["rows_form"] == "ndarray":
             rows = np.array(rows, dtype=int)
+        elif rows is not None and op["rows_form"] == "tuple":
+            rows = tuple(rows)
+        elif rows is not None and op["rows_form"] == "vector":
+            rows = di.Vector(rows, int)
+        elif rows is not None and op["rows_form"] == "range":
+            rows = range(*op["range"])
+            if list(rows) != op["rows"]:
+                raise RuntimeError("builder: range does not reproduce the planned positions")
+            ctx.cls("rows_as_range", "rows_as_descending_range" if rows.step < 0 else "rows_as_ascending_range")
         out = ctx.call(name, getattr(data, name), rows=rows, cols=op["cols"])
         allnames = list(src)
         if op["cols"] is not None:
